@@ -32,7 +32,8 @@ try:
         r = subprocess.run("cargo run --offline -q -- demo.scm", shell=True, cwd=wt, env=env, stdout=subprocess.PIPE, stderr=subprocess.PIPE, text=True, timeout=600)
         os.remove(os.path.join(wt, "demo.scm"))
         exp = open(os.path.join(src, "expected.txt")).read()
-        return r.stdout == exp and r.returncode == 0, ("rc=%d stdout=%r" % (r.returncode, r.stdout[-300:]))
+        # a demonstration may legitimately end in a reported error (non-zero status): only its output is compared
+        return r.stdout == exp, ("rc=%d stdout=%r" % (r.returncode, r.stdout[-300:]))
 
     ok0, d0 = run_demo()
     result["demo_passes_without_change"] = ok0
